@@ -30,6 +30,7 @@ struct vthread {
 };
 
 static struct vthread th[VS_MAXT];
+static bool g_crash_tried;
 static ucontext_t g_main_ctx;
 static void *g_main_fake;
 static const void *g_main_bottom;
@@ -175,6 +176,7 @@ int vs_choose(int n, int cost)
     return c;
 }
 
+static long long g_progress[VS_MAXT];
 static struct {
     uintptr_t lo, hi;
 } g_ign[8];
@@ -202,6 +204,7 @@ void vs_point(int kind, const volatile void *addr)
             return;
     if (g_trace)
         printf("    [T%d] %s %p\n", T, kind < 14 ? kind_names[kind] : "?", (void *)addr);
+    g_progress[T]++;
     decide_n(T, true, 0, 0);
 }
 
@@ -224,6 +227,44 @@ void vs_wait(bool (*pred)(void *), void *arg)
         decide_n(T, false, 0, 0);
         th[T].state = T_RUN;
     }
+}
+
+/* fairness: a thread that detects it is spinning (retry through its event loop) lets the others
+ * make progress first; it is resumed as soon as another thread executed a point, or at once when
+ * no other thread can run. Not a preemption. */
+static long long g_yield_sum[VS_MAXT];
+static bool yield_pred(void *arg)
+{
+    int T = (int)(intptr_t)arg;
+    long long sum = 0;
+    for (int i = 0; i < g_prog->nthreads; i++)
+        if (i != T)
+            sum += g_progress[i];
+    if (sum != g_yield_sum[T])
+        return true;
+    for (int i = 0; i < g_prog->nthreads; i++) {
+        if (i == T)
+            continue;
+        if (th[i].state == T_NEW || th[i].state == T_RUN)
+            return false;
+        if (th[i].state == T_BLOCK && th[i].pred != yield_pred && th[i].pred(th[i].pred_arg))
+            return false;
+    }
+    return true;
+}
+void vs_yield(void)
+{
+    int T = g_cur;
+    if (T < 0)
+        return;
+    long long sum = 0;
+    for (int i = 0; i < g_prog->nthreads; i++)
+        if (i != T)
+            sum += g_progress[i];
+    g_yield_sum[T] = sum;
+    if (g_trace)
+        printf("    [T%d] yields\n", T);
+    vs_wait(yield_pred, (void *)(intptr_t)T);
 }
 
 void vs_atomic_begin(void)
@@ -257,6 +298,7 @@ static int run_one(const int *prefix, int plen)
     g_abort = VS_DONE;
     g_np = 0;
     g_exec_points = 0;
+    memset(g_progress, 0, sizeof(g_progress));
     g_prefix = prefix;
     g_prefix_len = plen;
     g_nontrivial = false;
@@ -274,6 +316,10 @@ static int run_one(const int *prefix, int plen)
         th[i].ctx.uc_stack.ss_size = VS_STACK;
         th[i].ctx.uc_link = NULL;
         makecontext(&th[i].ctx, (void (*)(void))trampoline, 1, i);
+    }
+    if (v_crash_fd < 0 && !g_crash_tried) {
+        g_crash_tried = true;
+        v_crash_open(); /* this translation unit has its own descriptor */
     }
     if (v_crash_fd >= 0) {
         char cs[4000];
